@@ -7,6 +7,7 @@ import builtins
 from ..cfg import CFG
 from ..fdai import Unknown
 from ..loader import AnchorError, dotted, is_self_attr, parent, short, src, walk_no_nested
+from ..mayraise import total_subclass_test
 from ..resolve import Resolver
 from .mitomodel import table_entries
 from ..rules import attr_writes, cfg_of, guard_facts, guard_established, mentions_name, package_attr_writes, where
@@ -473,7 +474,7 @@ def _may_raise(n, fi, callee_summary, res):
                 return True
             if d in RAISING_CALLS or last in ("loads", "parse", "literal_eval"):
                 return True
-            if d in TOTAL_CALLS or (isinstance(x.func, ast.Attribute) and last in TOTAL_METHODS):
+            if d in TOTAL_CALLS or total_subclass_test(x) or (isinstance(x.func, ast.Attribute) and last in TOTAL_METHODS):
                 continue
             if d == "hasattr" or (d == "getattr" and (len(x.args) >= 3 or (len(x.args) == 2 and (isinstance(x.args[1], ast.Constant) or res.closed_name(fi, x.args[1]))))):
                 continue      # attribute lookup by a name written in the source (dispatch table) or with a default
